@@ -92,24 +92,32 @@ class ImportConverter:
                 )  # type: ignore
         elif isinstance(module, ast.ImportFrom):
             if module.level == 0:
-                new_imports = [
-                    AbsoluteImport(
-                        module_name,
-                        self._adjust_with_root_prefix(
-                            module.module,  # type: ignore
-                            absolute_import_prefix,
-                            all_internal_modules,
-                        ),
+                new_imports = []
+                for alias in module.names:
+                    imported_module = self._adjust_with_root_prefix(
+                        module.module,  # type: ignore
+                        absolute_import_prefix,
+                        all_internal_modules,
                     )
-                ]
+                    imported_sub_module = f"{imported_module}.{alias.name}"
+                    if imported_sub_module in all_internal_modules:
+                        imported_module = imported_sub_module
+                    new_imports.append(AbsoluteImport(module_name, imported_module))
             else:
                 new_imports = []
                 for alias in module.names:
-                    new_imports.append(
-                        RelativeImport(
-                            module_name, module.module, alias.name, module.level
-                        )
+                    relative_import = RelativeImport(
+                        module_name, module.module, alias.name, module.level
                     )
+                    imported_sub_module = f"{relative_import.importee()}.{alias.name}"
+                    if module.module and imported_sub_module in all_internal_modules:
+                        relative_import = RelativeImport(
+                            module_name,
+                            f"{module.module}.{alias.name}",
+                            None,
+                            module.level,
+                        )
+                    new_imports.append(relative_import)
 
         return new_imports
 
